@@ -527,6 +527,7 @@ func fragHist(g *Gen, n int, o *Out) {
 			}
 		}
 	}
+	kindShiftHistory(o)
 	shapeShiftHistory(g, o, n)
 	for i := 0; i < n; i++ {
 		// one evaluator, a history of data
@@ -818,6 +819,34 @@ func fragQuoteRT(g *Gen, n int, o *Out) {
 					class = "double-quoted-json-pointer-shaped-literal"
 				}
 				o.finding(Finding{Property: "C16", Kind: "failing-input", What: fmt.Sprintf("X == <quoted s> is %s for X = s", r), Request: lastReq(o), Detail: fmt.Sprintf("s=%q text=%q", s, text), Class: class})
+			}
+		}
+	}
+}
+
+// kindShiftHistory: ONE evaluator whose selector meets values of every scalar kind in turn (dynamically typed data),
+// for literals that are numbers for some kinds and not for others; every call equals a fresh evaluator's.
+func kindShiftHistory(o *Out) {
+	vals := []interface{}{1, 1.5, uint(1), float32(1.5), int8(-1), "1.5", uint8(7), -1, true, 2.5, int64(7), "x", uint64(1), 1.5, jsonNumber("1.5"), jsonNumber("-1"), 7, nil, 1.5}
+	for _, lit := range []string{"1.5", "-1", "1", "7", "0x7", "1e0", "true", "x", "-1.0", "256"} {
+		for _, form := range []string{"V == %s", "V != %s", "%s in L", "%s not in L", "any L as e { e == %s }"} {
+			text := fmt.Sprintf(form, lit)
+			ev, _ := create(text, nil)
+			if ev == nil {
+				continue
+			}
+			for rounds := 0; rounds < 2; rounds++ {
+				var hist []string
+				for h, v := range vals {
+					d := map[string]interface{}{"V": v, "L": []interface{}{vals[(h+1)%len(vals)], v}}
+					got := safeEvaluate(ev, d)
+					want := evalText(o, nil, text, d)
+					hist = append(hist, got)
+					if got != want {
+						o.finding(Finding{Property: "C13", Kind: "failing-history", What: fmt.Sprintf("call %d on a used evaluator returns %s, a fresh evaluator %s (the selector met values of different kinds; history %v)", h, got, want, hist), Request: lastReq(o), Detail: text})
+						break
+					}
+				}
 			}
 		}
 	}
